@@ -227,6 +227,13 @@ def _child_vals(n, refs):
 
 def pat_unsigned_wrap(n, refs, lang, plat):
     """unsigned arithmetic narrower than 64 bits whose mathematical result does not fit the type"""
+    if n.k == 'bin' and n.op != ',':
+        # `~x` with x unsigned and narrower than 64 bits is computed correctly on its own (and is judged), but carries
+        # the unreduced 64-bit complement when it is an operand of a binary operator (witness `1 + ~65535u`)
+        for c in n.ch:
+            rc = refs.get(id(c))
+            if c.k == 'pre' and c.op == '~' and rc is not None and rc.unsigned and rc.size < 8:
+                return True
     r = refs.get(id(n))
     if r is None or not r.unsigned:
         return False
@@ -237,8 +244,8 @@ def pat_unsigned_wrap(n, refs, lang, plat):
         if n.k == 'bin' and n.op in ('+', '-', '*', '<<'):
             a, b = cv[0].value, cv[1].value
             m = {'+': a + b, '-': a - b, '*': a * b, '<<': a << b if 0 <= b < 64 else None}[n.op]
-        elif n.k == 'pre' and n.op in ('-', '~'):
-            m = -cv[0].value if n.op == '-' else ~cv[0].value
+        elif n.k == 'pre' and n.op == '-':
+            m = -cv[0].value
         else:
             return False
     except Exception:
@@ -290,6 +297,20 @@ def _float_child(n):
         except ValueError:
             return None
     return None
+
+
+def msvc_signed_ll(n):
+    """non-decimal literal with an ll suffix (no u) whose value needs the top bit of long long: clang in MSVC
+    compatibility mode types it signed long long (as MSVC does), ISO C/C++ say unsigned long long — the reference is
+    not authoritative for the property on such a literal"""
+    if n.k != 'leaf' or 'int' not in n.flags:
+        return False
+    t = n.txt.replace("'", '')
+    suf = t[len(t.rstrip('uUlL')):].lower()
+    if suf != 'll':
+        return False
+    v, base = c09._lit_value(t)
+    return v is not None and base != 'dec' and v >= (1 << 63)
 
 
 def undefined_float_cast(n, refs):
@@ -392,6 +413,14 @@ def pat_ulong32_highbit(n, refs, lang, plat):
     return (r.size == 4 and plat.sizes['long'] == 4 and suf.count('l') == 1) or (r.size == 2)
 
 
+def pat_u64_complement(n, refs, lang, plat):
+    """`~x` with x an unsigned 64-bit value that has the top bit set"""
+    if n.k != 'pre' or n.op != '~':
+        return False
+    r = refs.get(id(n.ch[0]))
+    return r is not None and r.unsigned and r.size >= 8 and r.value >= (1 << 63)
+
+
 def pat_lit(n, refs, lang, plat):
     return c09.pat_hex_literal(n, None, lang, plat) or c09.pat_octal_literal(n, None, lang, plat)
 
@@ -404,6 +433,7 @@ FINDING_PATTERNS = [
     ('float-cast-large', 'expr:(longlong)4e9:unix64', pat_float_cast_large),
     ('truth-as-value', 'expr:sizeof(st1)+9:unix64', pat_truth_as_value),
     ('cast-char-negative', "expr:(char)-'\\r':unix64", pat_cast_char_negative),
+    ('u64-complement', 'expr:~0xFFFFFFFFFFFFFFFF<=0:unix64', pat_u64_complement),
 ]
 
 
@@ -457,6 +487,11 @@ def check_unit(ctx, d, name, u, lang, plat, use_gcc, use_patterns=True):
         return
     excluded_lines = {}
     for line, st in u.stmts.items():
+        if 'msvc' in plat.triple and any(msvc_signed_ll(x) for x in st.ch[1].walk()):
+            excluded_lines[line] = None
+            ctx.count('dropped', 'statement: LL-suffixed literal above LLONG_MAX on an MSVC target (reference types it signed '
+                                 'for MSVC compatibility, the standard says unsigned)')
+            continue
         if any(undefined_float_cast(x, refs) for x in st.ch[1].walk()):
             excluded_lines[line] = None
             ctx.count('dropped', 'statement: floating value not representable in the target type (undefined)')
@@ -626,6 +661,7 @@ def witnesses():
         ('avr', 'c', B('+', L('E1', 'I', ('enumerator',)), I('0X8001'))),
         ('unix64', 'c', B('+', I('0x100000001u'), I('0'))),
         ('msp430', 'c', B('+', I('0X100000000Lu'), I('0'))),
+        ('unix64', 'c', B('<=', U('~', I('0xFFFFFFFFFFFFFFFF')), I('0'))),
     ]
 
 
